@@ -141,7 +141,7 @@ def physOfCode? (s : String) : Option Phys :=
   | some n => if n ≤ 5 then some (Phys.ofCode n) else none
   | none => none
 
-partial def parseFieldType (s : String) : Option FieldType :=
+def parseBaseType (s : String) : Option FieldType :=
   match s with
   | "string" => some .string
   | "u64" => some .u64
@@ -152,9 +152,18 @@ partial def parseFieldType (s : String) : Option FieldType :=
   | "date" => some .date
   | _ =>
     match tokSplit s with
-    | some ('?', r) => (parseFieldType r).map .optional
     | some ('e', r) => ((r.splitOn ",").mapM unhexStr).map .enum
     | _ => none
+
+/-- `?`-prefixes are optionals (at most `fuel` levels) -/
+def parseFieldTypeF : Nat → String → Option FieldType
+  | 0, s => parseBaseType s
+  | f + 1, s =>
+    match tokSplit s with
+    | some ('?', r) => (parseFieldTypeF f r).map .optional
+    | _ => parseBaseType s
+
+def parseFieldType (s : String) : Option FieldType := parseFieldTypeF 4 s
 
 def blockAnswer (physTok : String) (vals : List String) (tabs : List String) : String :=
   let t := parseTables tabs
